@@ -5,6 +5,7 @@ unwinding, in Vec order), or the closure of `value_or_insert_with` panicking.
 -/
 import Lockable.Proofs.ApiLemmas
 import Lockable.Props.C08
+import Lockable.Proofs.Abort
 namespace Lockable
 
 /-- **Panicking eviction callback**: the lock call propagates the panic (`userPanic`); the handle of the
@@ -24,27 +25,8 @@ no stored value changes (the values are exactly those committed before the panic
 theorem C15_unwind (cands : List Nat) : ∀ (a : Api), Inv a.s →
     (∀ c ∈ cands, ∃ hd, a.s.hs c = some hd ∧ hd.st = .holding) → cands.Nodup →
     Inv (a.dropAll cands).s ∧ (∀ k, absVal (a.dropAll cands).s k = absVal a.s k) ∧
-    (∀ c ∈ cands, (a.dropAll cands).s.hs c = none) := by
-  induction cands with
-  | nil => intro a hi _ _; exact ⟨hi, fun _ => rfl, fun c hc => by cases hc⟩
-  | cons c cs ih =>
-    intro a hi hall hnd
-    have ⟨hn1, hn2⟩ := List.nodup_cons.1 hnd
-    obtain ⟨hd, hh, hst⟩ := hall c (by simp)
-    have hi1 := inv_dropGuard a c hi
-    have hall1 : ∀ x ∈ cs, ∃ hd, (a.dropGuard c).1.s.hs x = some hd ∧ hd.st = .holding := by
-      intro x hx
-      rw [dropGuard_hs_other a c x (fun e => hn1 (e ▸ hx))]
-      exact hall x (List.mem_cons_of_mem _ hx)
-    obtain ⟨r1, r2, r3⟩ := ih (a.dropGuard c).1 hi1 hall1 hn2
-    have hda : a.dropAll (c :: cs) = (a.dropGuard c).1.dropAll cs := by simp [Api.dropAll]
-    rw [hda]
-    refine ⟨r1, fun k => by rw [r2 k, absVal_dropGuard a c k hi], fun x hx => ?_⟩
-    rcases List.mem_cons.1 hx with e | hx
-    · subst e
-      rw [dropAll_hs_other cs x hn1]
-      exact dropGuard_gone a x hd hi hh hst
-    · exact r3 x hx
+    (∀ c ∈ cands, (a.dropAll cands).s.hs c = none) :=
+  unwind_facts cands
 
 /-- **Panicking `value_or_insert_with` closure**: evaluated before the stored option is touched — on an absent
 key the panic reaches the caller and the state is unchanged (the guard stays usable and is released by the
@@ -80,5 +62,29 @@ example :
     r.2.res.isAbort = true ∧ r.1.s.order = [2] ∧ absVal r.1.s 2 = some 21 ∧ r.1.s.hs 3 = none ∧
       r.1.s.hs 200 = none ∧ r.1.s.hs 201 = none := by
   decide
+
+/-- **The panic reaches the caller** (not only "if the call aborted …"): whenever the first eviction round of a lock call hands
+guards to a callback that panics — on entry, or after having worked on its guards — the call answers with that panic. -/
+theorem C15_panic_propagates (a : Api) (v : Variant) (h k n : Nat) (script : List Round) (h0 : Nat) (cands : List Nat)
+    (hr : (step a.s (.limitLookup h k n (List.range' h0 supplyLen))).2 = .list cands)
+    (hfin : (script.head?.getD defaultRound).fin = .panic ∨ (script.head?.getD defaultRound).fin = .latePanic) :
+    (a.lock v h k (.soft n script) h0).2.res matches .userPanic := by
+  obtain ⟨_, h1, h2, _⟩ := lock_first_round a v h k n script h0 cands hr
+  rcases hfin with e | e
+  · exact h1 e
+  · exact h2 e
+
+/-- **Every guard involved is released, the stored values are those committed before**: for the callback that panics on
+entry, after the lock call every guard it was given is gone, no value changed, the requested key's handle was never created
+and the full invariant holds (not poisoned, counts exact). -/
+theorem C15_panic_round_releases (a : Api) (v : Variant) (h k n : Nat) (script : List Round) (h0 : Nat) (c : Nat) (cs : List Nat)
+    (hn : 1 ≤ n) (hi : Inv a.s) (hfr : a.s.hs h = none) (hlt : h < h0) (hfree : ∀ x, h0 ≤ x → a.s.hs x = none)
+    (hlen : a.s.order.length ≤ supplyLen)
+    (hr : (step a.s (.limitLookup h k n (List.range' h0 supplyLen))).2 = .list (c :: cs))
+    (hfin : (script.head?.getD defaultRound).fin = .panic) :
+    let r := a.lock v h k (.soft n script) h0
+    (r.2.res matches .userPanic) ∧ Inv r.1.s ∧ (∀ x ∈ c :: cs, r.1.s.hs x = none) ∧ (∀ x, absVal r.1.s x = absVal a.s x) ∧
+      r.1.s.hs h = none :=
+  lock_panic_round_releases a v h k n script h0 c cs hn hi hfr hlt hfree hlen hr hfin
 
 end Lockable
